@@ -36,7 +36,8 @@ MANIFEST = {
             'ATR kernel (true range at every position, NaN warm-up, Wilder recurrence over the true range; periods 2, 5, 14 - symbolic period '
             'in the thorough tier), momentum through the real wrapper (NaN warm-up, x[j] - x[j-p] at every position, symbolic period), the four '
             'price transforms (formula, low <= value <= high), the Donchian channel (bands bound and are attained inside the trailing window, '
-            'ordered, middle = mean; window 2 and 3, 5 in the thorough tier) and the range [-100, 0] of Williams %R (window 2, 3). '
+            'ordered, middle = mean; window 2 and 3, 5 in the thorough tier), the range [-100, 0] of Williams %R (window 2, 3), and the simple and '
+            'the weighted moving average: exactly the (weighted) mean of the trailing window at every position (window 2, 3, 5). '
             'Bounded stand-ins (14 candles, symbolic values, periods 2/3/5, RSI 2/3/4), reported under '
             'bounded_checks: SMA/WMA/ROC/MOM/OBV/typical/median price equal their window definitions exactly, EMA/DEMA/TEMA/Wilders '
             'satisfy their recurrence step, RSI in [0,100], Williams %R in [-100,0], ATR >= 0 and its Wilder recurrence over the true '
@@ -492,6 +493,35 @@ def t_donchian_unbounded(P):
     return t
 
 
+def t_average_unbounded(name, P):
+    """UNBOUNDED in the series length (window width fixed per task): the simple / weighted moving average through the real wrapper on a
+    price series of symbolic length - NaN warm-up, and EXACTLY the (weighted) mean of the trailing window at every later position"""
+    def t(h):
+        src = h.ctx.fresh_arr('x', np=True)
+        n = src.n
+        h.assume(ops.compare('>=', n, 1))
+        h.cover(f'{name}.unbounded.pre')
+        out = h.outcome(f'jesse.indicators.{name}.{name}', src, P, sequential=True)
+        h.prove(out.ok, f'{name}.series.no-exception', {'raised': out.exc})
+        if not out.ok:
+            return
+        short = h.branch(ops.compare('<', n, P))
+        env = dict(r=out.value, x=src, n=n, p=P)
+        upto = n if short else P - 1
+        h.prove(h.ev('len(r) == n and forall(lambda j: isnan(r[j]), 0, upto)', upto=upto, **env), f'{name}.series.one-entry-per-value-and-nan-warm-up.for-every-length')
+        if short:
+            return
+        if name == 'sma':
+            win = ' + '.join(f'x[j - {t}]' for t in range(P))
+            text = f'r[j] * {P} == {win}'
+        else:
+            win = ' + '.join(f'{P - t} * x[j - {t}]' for t in range(P))
+            text = f'r[j] * {P * (P + 1) // 2} == {win}'
+        h.prove(h.ev(f'forall(lambda j: (not isnan(r[j])) and {text}, p - 1, n)', **env),
+                f'{name}.series.is-the-exact-trailing-window-average-at-every-position.for-every-length')
+    return t
+
+
 def t_willr_unbounded(P):
     """UNBOUNDED in the series length (window width fixed per task): Williams %R through the real wrapper stays inside [-100, 0] at
     EVERY position after the warm-up, for every series of valid candles"""
@@ -571,6 +601,9 @@ def tasks(tier):
     ts.append(Task('macd-ema.unbounded', t_macd_ema_unbounded, extra=dict(spec_mod=SPEC), overrides=dict(ov), invariants=dict(MACD_EMA_INV), prove_timeout_ms=60000))
     for P in ((2, 3) if tier == 'quick' else (2, 3, 5)):
         ts.append(Task(f'donchian.unbounded.p{P}', t_donchian_unbounded(P), extra=dict(spec_mod=SPEC), overrides=dict(ov), prove_timeout_ms=(60000 if P < 5 else 900000)))
+    for nm in ('sma', 'wma'):
+        for P in (2, 3, 5):
+            ts.append(Task(f'{nm}.unbounded.p{P}', t_average_unbounded(nm, P), extra=dict(spec_mod=SPEC), overrides=dict(ov), prove_timeout_ms=60000))
     for P in (2, 3):
         ts.append(Task(f'willr.unbounded.p{P}', t_willr_unbounded(P), extra=dict(spec_mod=SPEC), overrides=dict(ov), prove_timeout_ms=60000))
     for nm in sorted(PRICE_TRANSFORMS):
